@@ -2,7 +2,7 @@
 import re
 
 from analysis.facts import strip_generics
-from analysis.guards import dominating_conditions
+from analysis.guards import dominating_conditions, has_cond
 from . import routing as R
 
 EXPLANATION = (
@@ -35,6 +35,11 @@ def check(run):
         run.guard("C06.3.cache-key-validity", cfg, lambda: rule_cache_key(run, F, cfg))
         run.guard("C06.4.batch-incremental", cfg, lambda: rule_routing(run, F, cfg))
         run.guard("C06.5.serialize-readonly", cfg, lambda: rule_serialize(run, F, cfg))
+        from . import C05 as _C05, C07 as _C07   # lazy imports (C07 borrows nothing from here)
+        b5 = run.borrow("C05", why="which lists are optimised must not depend on how the engine was built")
+        run.guard("C06.via.C05.3.what-is-optimised", cfg, lambda: _C05.rule_what(b5, F, cfg))
+        b7 = run.borrow("C07", why="tags_with_set rebuilds filters_tagged from the enabled set alone")
+        run.guard("C06.via.C07.3.set-algebra", cfg, lambda: _C07.rule_set_algebra(b7, F, cfg))
 
 
 def engine_types(F):
@@ -152,6 +157,38 @@ def rule_pure_cache(run, F, cfg):
     ok = bool(ims) and all("arg:pattern" == m.expr_operand(t["args"][1]) for b, t in ims)
     run.ob("C06.2.pure-cache", "matches-result", ok,
            "RegexManager::matches returns CompiledRegex::is_match(entry.regex, pattern)", config=cfg)
+    # the only constant result is the fast path for masks that are neither regex nor complete regex
+    from analysis.guards import conditional_defs as _cd
+    consts = [(val, conds) for kind, b, val, conds, _ in _cd(m, 0) if val in ("true", "false")]
+    okc = len(consts) == 1 and consts[0][0] == "true" and \
+        has_cond(consts[0][1], r"NetworkFilterMaskHelper::is_regex\(arg:mask\)$", 0) and \
+        has_cond(consts[0][1], r"NetworkFilterMaskHelper::is_complete_regex\(arg:mask\)$", 0)
+    run.ob("C06.2.pure-cache", "constant-result-only-for-non-regex", okc,
+           "RegexManager::matches returns a constant (true) only when the mask is neither IS_REGEX nor "
+           f"IS_COMPLETE_REGEX; every other result is the compiled regex's verdict ({[(v, sorted(c.items())[:3]) for v, c in consts]})",
+           site=m.loc(0), config=cfg)
+    # an occupied entry is rebuilt exactly when its regex was discarded (never used while None)
+    from analysis.pathinterp import enumerate_paths as _ep
+    bad_paths = []
+    n_occ = 0
+    for p in _ep(m):
+        if p.end != "return":
+            continue
+        none = [v for e, v in p.conds if re.search(r"Option::is_none\(.*@Occupied\.0\)?.*\.regex\)$", e)]
+        some = [1 - v for e, v in p.conds if re.search(r"Option::is_some\(.*@Occupied\.0\)?.*\.regex\)$", e)]
+        none += some
+        if not none:
+            continue
+        n_occ += 1
+        wrote = any(st["k"] == "assign" and st["pl"]["p"] and isinstance(st["pl"]["p"][-1], dict)
+                    and st["pl"]["p"][-1].get("n") == "regex" and m.expr_rvalue(st["rv"]).startswith("std::option::Option::Some")
+                    for b in p.blocks for st in m.blocks[b]["s"])
+        if (none[0] == 1) != wrote:
+            bad_paths.append((none[0], wrote))
+    run.ob("C06.2.pure-cache", "rebuild-iff-discarded", n_occ >= 2 and not bad_paths,
+           "on the Occupied arm of RegexManager::matches the regex is re-created exactly on the paths where it is "
+           f"None (so it is Some when used, and a live entry is never replaced); offending (is_none, rebuilt): {bad_paths}",
+           site=m.loc(0), config=cfg)
     # time fields are read only by the discard logic
     TIME = {"now", "last_cleanup", "last_used"}
     allowed_readers = {"regex_manager::RegexManager::update_time", "regex_manager::RegexManager::cleanup",
